@@ -640,3 +640,65 @@ V('c05-borrowed-variants-reordered', 'C05', 'C05.R6', (HRc, '''pub(crate) enum B
     File(&'a SharedString, &'a SharedString),
     Asset(&'a OwnedKey),
 }'''))
+
+# ---- C10
+V('c10-or-for-and', 'C10', 'C10.R1', (E, 'let inner = if T::HOT_RELOADED && _mutable() {', 'let inner = if T::HOT_RELOADED || _mutable() {'))
+V('c10-ignore-mutable', 'C10', 'C10.R1', (E, 'let inner = if T::HOT_RELOADED && _mutable() {', 'let inner = if T::HOT_RELOADED {'))
+V('c10-storable-default-true', 'C10', 'C10.R1', ('src/asset.rs', '''pub trait Storable: Sized + Send + Sync + 'static {
+    #[doc(hidden)]
+    const HOT_RELOADED: bool = false;''', '''pub trait Storable: Sized + Send + Sync + 'static {
+    #[doc(hidden)]
+    const HOT_RELOADED: bool = true;'''))
+V('c10-reintroduce-F5-remove', 'C10', 'C10.R5', (C, '''        #[cfg(feature = "hot-reloading")]
+        if removed {
+            self.forget_asset(id, TypeId::of::<T>());
+        }
+''', ''''''))
+V('c10-reintroduce-F5-clear', 'C10', 'C10.R5', (HP, '''        // Nothing is cached anymore, so there is nothing left to reload
+        self.deps = DepsGraph::new();''', ''''''))
+V('c10-remove-handler-noop', 'C10', 'C10.R5', (HD, '''        if let Some(node) = self.0.get_mut(&key as &dyn Key) {
+            node.typ = None;
+        }''', '''        let _ = self.0.get(&key as &dyn Key);'''))
+V('c10-reintroduce-F7', 'C10', 'C10.R6', (A, '''        crate::asset::load_and_record(self._as_any_cache(), id, typ, false)''', '''        crate::asset::load_and_record(self._as_any_cache(), id, typ, true)'''))
+V('c10-owned-registers-some', 'C10', 'C10.R6', (HD, '''            self.insert_node(asset_key, deps, None);''', '''            self.insert_node(asset_key, deps, self.0.values().find_map(|n| n.typ));'''))
+V('c10-get-or-insert-registers', 'C10', 'C10.R3', (A, '''        let entry = CacheEntry::new(asset, id, || self._has_reloader());
+
+        self.insert(entry)''', '''        let entry = CacheEntry::new(asset, id.clone(), || self._has_reloader());
+
+        #[cfg(feature = "hot-reloading")]
+        if let Some(reloader) = self.reloader() {
+            reloader.add_asset(id, Dependencies::empty(), Type::of::<T>());
+        }
+
+        self.insert(entry)'''))
+V('c10-reload-typ-none-too', 'C10', 'C10.R3', (HD, '''            if let Some(typ) = entry.typ {
+                let new_deps''', '''            if let Some(typ) = entry.typ.or(self.1) {
+                let new_deps'''), (HD, '''pub(crate) struct DepsGraph(HashMap<Dependency, GraphNode>);''', '''pub(crate) struct DepsGraph(HashMap<Dependency, GraphNode>, Option<Type>);'''), (HD, '''        DepsGraph(HashMap::new())''', '''        DepsGraph(HashMap::new(), None)'''))
+V('c10-write-static-entry', 'C10', 'C10.R2', (E, '''        if let Some(d) = &self.dynamic {
+            unsafe {
+                let _g = d.lock.write();''', '''        static FALLBACK: Dynamic = Dynamic {
+            lock: RwLock::new_const(()),
+            reload_global: AtomicBool::new(false),
+            reload: AtomicReloadId::new(),
+        };
+        if let Some(d) = Some(self.dynamic.as_ref().unwrap_or(&FALLBACK)) {
+            unsafe {
+                let _g = d.lock.write();'''), (U, '''impl<T: ?Sized> RwLock<T> {
+    #[inline]
+    pub fn read''', '''impl<T> RwLock<T> {
+    #[allow(dead_code)]
+    pub const fn new_const(inner: T) -> Self {
+        Self(sync::RwLock::new(inner))
+    }
+}
+
+impl<T: ?Sized> RwLock<T> {
+    #[inline]
+    pub fn read'''))
+V('c10-local-cache-gets-reloader', 'C10', 'C10.R4', (C, '''    pub fn without_hot_reloading(source: S) -> AssetCache<S> {
+        Self {
+            #[cfg(feature = "hot-reloading")]
+            reloader: None,''', '''    pub fn without_hot_reloading(source: S) -> AssetCache<S> {
+        Self {
+            #[cfg(feature = "hot-reloading")]
+            reloader: HotReloader::make(&source),'''))
